@@ -78,6 +78,13 @@ func (w *WalletManager) constructTxIn(inputs []*TxIn, lockTime uint64) (*wire.Ms
 			return nil, nil, massutil.ZeroAmount(), ErrInvalidParameter
 		}
 
+		// a mined previous transaction was found by its credit, so the index exists; a pending
+		// one was looked up by hash only
+		if int64(txIn.PreviousOutPoint.Index) >= int64(len(prevTx.TxOut)) {
+			logging.CPrint(logging.ERROR, "output index does not exist in previous transaction", logging.LogFormat{
+				"tx": txIn.PreviousOutPoint.Hash.String(), "index": txIn.PreviousOutPoint.Index})
+			return nil, nil, massutil.ZeroAmount(), ErrInvalidParameter
+		}
 		prevTxOut := prevTx.TxOut[txIn.PreviousOutPoint.Index]
 		pks, err := utils.ParsePkScript(prevTxOut.PkScript, w.chainParams)
 		if err != nil {
